@@ -48,9 +48,30 @@ int main(int argc, char **argv)
     auto validator = Validator::create();
     validator->validateModel(model);
     auto analyser = Analyser::create();
-    for (int i = 3; i + 1 < argc; i += 2) {   // external variables: <component> <variable> pairs
-        auto c = model->component(argv[i], true);
-        if (c != nullptr && c->variable(argv[i + 1]) != nullptr) analyser->addExternalVariable(AnalyserExternalVariable::create(c->variable(argv[i + 1])));
+    // external variables: <component> <variable> pairs; "+<component> <variable>" adds a dependency to the last one;
+    // "@foreign" marks a variable of another model
+    AnalyserExternalVariablePtr lastExt;
+    ModelPtr foreign;
+    for (int i = 3; i < argc; ++i) {
+        std::string a = argv[i];
+        if (a == "@foreign") {
+            foreign = Model::create("other");
+            auto fc = Component::create("fc");
+            auto fv = Variable::create("fv");
+            fv->setUnits("dimensionless");
+            fc->addVariable(fv);
+            foreign->addComponent(fc);
+            analyser->addExternalVariable(AnalyserExternalVariable::create(fv));
+            continue;
+        }
+        if (i + 1 >= argc) break;
+        bool dep = a[0] == '+';
+        auto c = model->component(dep ? a.substr(1) : a, true);
+        auto v = (c != nullptr) ? c->variable(argv[i + 1]) : nullptr;
+        ++i;
+        if (v == nullptr) continue;
+        if (dep) { if (lastExt != nullptr) lastExt->addDependency(v); }
+        else { lastExt = AnalyserExternalVariable::create(v); analyser->addExternalVariable(lastExt); }
     }
     analyser->analyseModel(model);
     auto am = analyser->model();
@@ -58,6 +79,7 @@ int main(int argc, char **argv)
     std::cout << "parser_errors " << parser->errorCount() << "\nvalidator_errors " << validator->errorCount() << "\nanalyser_errors " << analyser->errorCount()
               << "\nanalyser_warnings " << analyser->warningCount() << "\ntype " << AnalyserModel::typeAsString(am->type()) << "\n";
     for (size_t i = 0; i < analyser->errorCount(); ++i) std::cout << "error " << analyser->error(i)->description() << "\n";
+    for (size_t i = 0; i < analyser->messageCount(); ++i) std::cout << "message " << analyser->message(i)->description() << "\n";
     if (am->voi() != nullptr) std::cout << "voi " << std::dynamic_pointer_cast<Component>(am->voi()->variable()->parent())->name() << " " << am->voi()->variable()->name() << "\n";
     if (am->voi() != nullptr) std::cout << "xvoi " << var(am->voi()) << "\n";
     for (size_t i = 0; i < am->stateCount(); ++i) std::cout << "xstate " << i << " " << var(am->state(i)) << "\n";
